@@ -63,17 +63,17 @@ Definition inv (st : vstate) : Prop := 0 <= numvar st /\ max_var (clauses st) <=
 
 (* the side condition: an unchecked insertion mentions only declared variables;
    a checked insertion is one the code accepts (no literal 0) *)
-Definition op_ok (st : vstate) (o : op) : Prop :=
+Definition op_ok (f : variant) (st : vstate) (o : op) : Prop :=
   match o with
-  | AddClause c true => lits_ok c = true
+  | AddClause c true => fixD34 f = true \/ lits_ok c = true
   | AddClause c false => max_var_clause c <= numvar st
   | _ => True
   end.
 
-Fixpoint ops_ok (f : bool) (st : vstate) (ops : list op) : Prop :=
+Fixpoint ops_ok (f : variant) (st : vstate) (ops : list op) : Prop :=
   match ops with
   | [] => True
-  | o :: t => op_ok st o /\ ops_ok f (fst (step f st o)) t
+  | o :: t => op_ok f st o /\ ops_ok f (fst (step f st o)) t
   end.
 
 Lemma add_group_facts st off g st' out : add_variable_group st off g = (st', out) ->
@@ -93,20 +93,22 @@ Qed.
 Lemma step_numvar_mono f st o : numvar st <= numvar (fst (step f st o)).
 Proof.
   destruct o as [g|c chk|k]; cbn [step].
-  - destruct (create f g); cbn [fst]; try lia.
+  - destruct (create (fixD2 f) g); cbn [fst]; try lia.
     destruct (add_variable_group st (numvar st) g) as [st' out] eqn:E. apply add_group_facts in E. cbn [fst]. lia.
-  - destruct chk; [destruct (lits_ok c)|]; cbn; lia.
+  - destruct chk; [destruct (lits_ok c); [|destruct (fixD34 f)]|]; cbn; lia.
   - destruct (k <? 0); cbn; lia.
 Qed.
 
-Theorem inv_step f st o : inv st -> op_ok st o -> inv (fst (step f st o)).
+Theorem inv_step f st o : inv st -> op_ok f st o -> inv (fst (step f st o)).
 Proof.
   intros [H0 H1] Hok. destruct o as [g|c chk|k]; cbn [step].
-  - destruct (create f g); cbn [fst]; try (split; assumption).
+  - destruct (create (fixD2 f) g); cbn [fst]; try (split; assumption).
     destruct (add_variable_group st (numvar st) g) as [st' out] eqn:E. apply add_group_facts in E as [Ec [En _]]. cbn [fst].
     unfold inv. rewrite Ec. lia.
   - destruct chk; cbn [op_ok] in Hok.
-    + rewrite Hok. cbn [fst]. unfold inv. cbn [numvar clauses]. rewrite max_var_app. lia.
+    + destruct (lits_ok c) eqn:El.
+      * cbn [fst]. unfold inv. cbn [numvar clauses]. rewrite max_var_app. lia.
+      * destruct Hok as [Hok|Hok]; [|discriminate]. rewrite Hok. cbn [fst]. split; assumption.
     + cbn [fst]. unfold inv. cbn [numvar clauses]. rewrite max_var_app. lia.
   - destruct (Z.ltb_spec k 0); cbn [fst]; unfold inv; cbn [numvar clauses]; lia.
 Qed.
@@ -125,7 +127,7 @@ Theorem fresh_allocation f st g st' off : inv st -> step f st (NewGroup g) = (st
   (forall c l, In c (clauses st) -> In l c -> Z.abs l <= off) /\
   (forall x, off + 1 <= x -> max_var (clauses st) < x).
 Proof.
-  intros [H0 H1] H. cbn [step] in H. destruct (create f g); try (injection H; discriminate).
+  intros [H0 H1] H. cbn [step] in H. destruct (create (fixD2 f) g); try (injection H; discriminate).
   apply add_group_facts in H as [_ [_ [[E _]|[E _]]]]; [discriminate|]. injection E as E.
   split; [lia|]. split.
   - intros c l Hc Hl. pose proof (max_var_bound _ _ _ Hc Hl). lia.
@@ -186,13 +188,13 @@ Definition layout (st : vstate) : Prop :=
 Theorem layout_step f st o : layout st -> op_wf o -> layout (fst (step f st o)).
 Proof.
   intros [H0 [H1 H2]] Hw. destruct o as [g|c chk|k]; cbn [step].
-  - destruct (create f g) eqn:C; cbn [fst]; try (repeat split; assumption).
+  - destruct (create (fixD2 f) g) eqn:C; cbn [fst]; try (repeat split; assumption).
     destruct (add_variable_group st (numvar st) g) as [st' out] eqn:E. apply add_group_facts in E as [Ec [En [[_ ->]|[_ [Eg Es]]]]]; cbn [fst].
     + repeat split; assumption.
     + pose proof (created_size_nonneg _ _ C) as S. unfold layout. rewrite Eg. split; [lia|]. split.
       * eapply groups_sorted_snoc; [exact H1|lia|exact S|]. destruct Es as [[Z1 Z2]|[Z1 [Z2 Z3]]]; lia.
       * apply Forall_app. split; [exact H2|]. constructor; [|constructor]. cbn [snd]. eapply created_wf; eauto.
-  - destruct chk; [destruct (lits_ok c)|]; cbn [fst]; unfold layout; cbn [numvar groups]; repeat split; try assumption; try lia.
+  - destruct chk; [destruct (lits_ok c); [|destruct (fixD34 f)]|]; cbn [fst]; unfold layout; cbn [numvar groups]; repeat split; try assumption; try lia.
     eapply groups_sorted_weaken; eauto. lia.
   - destruct (Z.ltb_spec k 0); cbn [fst]; unfold layout; cbn [numvar groups]; repeat split; try assumption; try lia.
     eapply groups_sorted_weaken; eauto. lia.
@@ -357,12 +359,12 @@ Qed.
 Definition hist_D3 : list op := [RaiseNumvar 3; NewGroup (mkgroup Single ["X"%string])].
 
 Lemma labels_D3_as_is :
-  all_variable_labels false ["x"%string; ""%string] (run false init_state hist_D3) = ["X"; "x2"; "x3"; "x4"]%string /\
-  names_of_variables ["x"%string; ""%string] (run false init_state hist_D3) = ["x1"; "x2"; "x3"; "X"]%string.
+  all_variable_labels false ["x"%string; ""%string] (run as_is init_state hist_D3) = ["X"; "x2"; "x3"; "x4"]%string /\
+  names_of_variables ["x"%string; ""%string] (run as_is init_state hist_D3) = ["x1"; "x2"; "x3"; "X"]%string.
 Proof. vm_compute. split; reflexivity. Qed.
 
 Theorem labels_refuted : exists ops dflt, Forall op_wf ops /\
-  all_variable_labels false dflt (run false init_state ops) <> names_of_variables dflt (run false init_state ops).
+  all_variable_labels false dflt (run as_is init_state ops) <> names_of_variables dflt (run as_is init_state ops).
 Proof.
   exists hist_D3, ["x"%string; ""%string]. split.
   - repeat constructor.
@@ -371,7 +373,7 @@ Qed.
 
 (* new_combinations_with_replacement cannot be used at all (DESIGN D2) *)
 Theorem combrepl_crash_as_is n k fmt st : 0 <= n -> 0 <= k -> fmt_ok (Words WCombRepl n k) fmt = true ->
-  step false st (NewGroup (mkgroup (Words WCombRepl n k) fmt)) = (st, Crash).
+  step as_is st (NewGroup (mkgroup (Words WCombRepl n k) fmt)) = (st, Crash).
 Proof.
   intros Hn Hk Hf. cbn [step]. unfold create. cbn [g_shape g_fmt]. rewrite Hf. cbn [negb].
   destruct (Z.ltb_spec n 0); [lia|]. destruct (Z.ltb_spec k 0); [lia|]. reflexivity.
@@ -380,8 +382,8 @@ Qed.
 (* a checked insertion that the code rejects has already stored the clause:
    without the side condition the invariant and freshness fail *)
 Theorem inv_rejected_clause_refuted : exists ops st' off,
-  step false (run false init_state ops) (NewGroup (mkgroup Single ["Y"%string])) = (st', Allocated off) /\
-  exists c l, In c (clauses (run false init_state ops)) /\ In l c /\ off + 1 <= Z.abs l.
+  step as_is (run as_is init_state ops) (NewGroup (mkgroup Single ["Y"%string])) = (st', Allocated off) /\
+  exists c l, In c (clauses (run as_is init_state ops)) /\ In l c /\ off + 1 <= Z.abs l.
 Proof.
   exists [AddClause [7; 0] true]. eexists. exists 0. split; [vm_compute; reflexivity|].
   exists [7; 0], 7. vm_compute. intuition discriminate.
